@@ -995,3 +995,258 @@ Proof.
         + exact IH. }
     rewrite H. reflexivity.
 Qed.
+
+(* ================================================================================================ *)
+(* 7. reST field lines, get_lineno, the docstring envelope                                           *)
+(* ================================================================================================ *)
+Lemma rst_field_line : forall ds ln m L, ds <> 0 ->
+  report_line sec_docstring ds ln (rst_field_lineno L) m = Num (ds + (L - 1)) /\
+  field_attr_lineno ds (rst_field_lineno L) = ds + (L - 1).
+Proof.
+  intros ds ln m L Hds. split; [|reflexivity].
+  apply (report_line_docstring_sections sec_docstring ds ln (L - 1) m eq_refl Hds).
+Qed.
+
+Lemma epytext_field_line : forall ds ln m z, ds <> 0 ->
+  report_line sec_docstring ds ln (epytext_field_lineno z) m = Num (ds + Z.of_nat z).
+Proof. intros ds ln m z Hds. apply (report_line_docstring_sections sec_docstring ds ln _ m eq_refl Hds). Qed.
+
+(* docutils nodes: the reference has no line of its own; its block (first ancestor with a line) is on 1-based line pl and
+   the reference comes nl newlines into it *)
+Lemma get_lineno_rst : forall ds ln m pl nl, ds <> 0 ->
+  report_line sec_xref ds ln (get_lineno 0 (Some (pl, nl))) m = Num (ds + (pl - 1) + nl).
+Proof.
+  intros ds ln m pl nl Hds. unfold get_lineno. cbn [Z.eqb negb].
+  rewrite (report_line_docstring_sections sec_xref ds ln _ m eq_refl Hds). f_equal. lia.
+Qed.
+
+(* epytext nodes: to_node() puts the 0-based Token.startline on the reference itself, no ancestor carries a line *)
+Lemma get_lineno_epytext : forall ds ln m z, ds <> 0 -> 0 <= z ->
+  report_line sec_xref ds ln (get_lineno z None) m = Num (ds + z).
+Proof.
+  intros ds ln m z Hds Hz. unfold get_lineno. destruct (z =? 0) eqn:E; cbn [negb].
+  - apply Z.eqb_eq in E. subst z. apply (report_line_docstring_sections sec_xref ds ln 0 m eq_refl Hds).
+  - apply (report_line_docstring_sections sec_xref ds ln z m eq_refl Hds).
+Qed.
+
+(* the first branch returns node.line as it is: were it ever a docutils (1-based) line, the report would be one too low *)
+Lemma get_lineno_own_line_refuted :
+  ~ (forall ds ln m L anc, ds <> 0 -> 1 <= L ->
+       report_line sec_xref ds ln (get_lineno L anc) m = Num (ds + (L - 1))).
+Proof.
+  intros H. specialize (H 2 0 false 1 None ltac:(lia) ltac:(lia)). vm_compute in H. discriminate.
+Qed.
+
+Lemma cleandoc_lines_value_lines : forall s j, clean_line_of_value_line s j <> None -> (j < length (split_nl s))%nat.
+Proof.
+  intros s j H. unfold clean_line_of_value_line in H. destruct (nth_error (split_nl s) j) eqn:E; [|contradiction].
+  apply nth_error_Some. rewrite E. discriminate.
+Qed.
+
+(* any report whose parser line lies inside the cleaned docstring is printed with a line inside the literal *)
+Lemma report_inside_docstring : forall (s : text) (n0 off : Z),
+  has_content s = true -> leading_ws_fit s = true ->
+  0 <= off < Z.of_nat (length (cleandoc_lines s)) ->
+  n0 <= linenum_of_docstring false n0 s + off <= n0 + Z.of_nat (length (split_nl s)) - 1.
+Proof.
+  intros s n0 off Hc Hfit Hoff.
+  assert (Hi : (Z.to_nat off < length (cleandoc_lines s))%nat) by lia.
+  destruct (cleandoc_alignment s n0 (Z.to_nat off) Hc Hfit Hi) as [j [Hj Hline]].
+  assert (Hsome : nth_error (cleandoc_lines s) (Z.to_nat off) <> None) by (apply nth_error_Some; exact Hi).
+  rewrite Hline in Hsome. pose proof (cleandoc_lines_value_lines s j Hsome) as Hjlt.
+  rewrite Z2Nat.id in Hj by lia. rewrite Hj. unfold phys_line. lia.
+Qed.
+
+(* without the guard: never before the literal, and at most the overshoot past its last line *)
+Lemma report_inside_docstring_general : forall (s : text) (n0 off : Z),
+  has_content s = true ->
+  0 <= off < Z.of_nat (length (cleandoc_lines s)) ->
+  n0 <= linenum_of_docstring false n0 s + off <=
+    n0 + Z.of_nat (length (split_nl s)) - 1 + Z.of_nat (top_dropped s - top_kept s).
+Proof.
+  intros s n0 off Hc Hoff.
+  assert (Hi : (Z.to_nat off < length (cleandoc_lines s))%nat) by lia.
+  destruct (cleandoc_overshoot s n0 (Z.to_nat off) Hc Hi) as [j [Hle [Hj Hline]]].
+  assert (Hsome : nth_error (cleandoc_lines s) (Z.to_nat off) <> None) by (apply nth_error_Some; exact Hi).
+  rewrite Hline in Hsome. pose proof (cleandoc_lines_value_lines s j Hsome) as Hjlt.
+  rewrite Z2Nat.id in Hj by lia. rewrite Hj. unfold phys_line. lia.
+Qed.
+
+(* ... for each of the three report paths *)
+Lemma every_path_inside_docstring : forall (s : text) (n0 ln off : Z) (m : bool) (d : text),
+  1 <= n0 -> has_content s = true -> leading_ws_fit s = true ->
+  0 <= off < Z.of_nat (length (cleandoc_lines s)) ->
+  let ds := linenum_of_docstring false n0 s in
+  let inside v := exists z, v = Num z /\ n0 <= z <= n0 + Z.of_nat (length (split_nl s)) - 1 in
+  inside (report_line sec_docstring ds ln (perr_offset {| pe_descr := d; pe_stored := Some off |}) m) /\
+  inside (report_line sec_docstring ds ln off m) /\
+  inside (report_line sec_xref ds ln off m).
+Proof.
+  intros s n0 ln off m d Hn0 Hc Hfit Hoff ds inside.
+  pose proof (report_inside_docstring s n0 off Hc Hfit Hoff) as Hin. fold ds in Hin.
+  assert (Hds : ds <> 0) by (pose proof (linenum_ge n0 s); unfold ds; lia).
+  destruct (offset_bases ds ln off m Hds) as [P1 [_ [P3 [_ [P5 _]]]]].
+  repeat split.
+  - exists (ds + off). split; [apply P1; lia|exact Hin].
+  - exists (ds + off). split; [exact P3|exact Hin].
+  - exists (ds + off). split; [exact P5|exact Hin].
+Qed.
+
+(* ================================================================================================ *)
+(* 8. once: suppressed means already handled                                                         *)
+(* ================================================================================================ *)
+Lemma existsb_first : forall {X} (p : X -> bool) l, existsb p l = true ->
+  exists l1 x l2, l = l1 ++ x :: l2 /\ p x = true /\ existsb p l1 = false.
+Proof.
+  intros X p. induction l as [|a l IH]; intros H; [discriminate|]. cbn [existsb] in H. destruct (p a) eqn:E.
+  - exists [], a, l. auto.
+  - cbn [orb] in H. destruct (IH H) as [l1 [x [l2 [-> [Hx Hn]]]]]. exists (a :: l1), x, l2.
+    repeat split; [exact Hx|]. cbn [existsb]. rewrite E. exact Hn.
+Qed.
+
+Lemma existsb_ext' : forall {X} (p q : X -> bool) l, (forall x, p x = q x) -> existsb p l = existsb q l.
+Proof. intros X p q l H. induction l as [|a l IH]; [reflexivity|]. cbn [existsb]. rewrite H, IH. reflexivity. Qed.
+
+Lemma existsb_map' : forall {X Y} (g : X -> Y) (p : Y -> bool) l, existsb p (map g l) = existsb (fun x => p (g x)) l.
+Proof. intros X Y g p l. induction l as [|a l IH]; [reflexivity|]. cbn [map existsb]. rewrite IH. reflexivity. Qed.
+
+Lemma existsb_ext_false : forall {X} (p q : X -> bool) l, (forall x, p x = q x) -> existsb q l = false -> existsb p l = false.
+Proof. intros X p q l H E. rewrite (existsb_ext' p q l H). exact E. Qed.
+
+(* a suppressed call repeats an EARLIER once-only call with the same (section, message) that was itself not suppressed *)
+Lemma suppressed_has_first : forall pre c, suppressed pre c = true ->
+  exists pre1 c0 pre2, pre = pre1 ++ c0 :: pre2 /\ c_once c0 = true /\
+    key_eqb (call_key c) (call_key c0) = true /\ suppressed pre1 c0 = false.
+Proof.
+  intros pre c H. unfold suppressed in H. apply andb_true_iff in H as [Ho Hex].
+  destruct (existsb_first (same_once c) pre Hex) as [pre1 [c0 [pre2 [-> [Hc0 Hnone]]]]].
+  unfold same_once in Hc0. apply andb_true_iff in Hc0 as [Ho0 Hk].
+  exists pre1, c0, pre2. repeat split; try assumption.
+  unfold suppressed. rewrite Ho0. cbn [andb].
+  apply (existsb_ext_false (same_once c0) (same_once c) pre1); [|exact Hnone].
+  intros x. unfold same_once. apply key_eqb_eq in Hk. rewrite Hk. reflexivity.
+Qed.
+
+Lemma effective_app : forall a b e, effective e (a ++ b) = effective e a ++ effective (e ++ a) b.
+Proof.
+  induction a as [|c a IH]; intros b e; cbn [app effective].
+  - rewrite app_nil_r. reflexivity.
+  - rewrite IH. rewrite <- !app_assoc. cbn [app]. reflexivity.
+Qed.
+
+Lemma once_suppressed_already_counted : forall v pre c,
+  (forall d, In d pre -> c_once d = true -> key_eqb (call_key c) (call_key d) = true -> is_problem d = is_problem c) ->
+  suppressed pre c = true -> is_problem c = true ->
+  (1 <= violations (msgs v init_state pre))%N.
+Proof.
+  intros v pre c Hg Hs Hp. destruct (suppressed_has_first pre c Hs) as [pre1 [c0 [pre2 [-> [Ho0 [Hk Hns]]]]]].
+  rewrite every_problem_counted by reflexivity. unfold problems.
+  rewrite effective_app. cbn [effective app]. rewrite Hns. cbn [app].
+  rewrite !filter_app. cbn [filter].
+  assert (Hp0 : is_problem c0 = true).
+  { rewrite (Hg c0); [exact Hp|apply in_or_app; right; left; reflexivity|exact Ho0|exact Hk]. }
+  rewrite Hp0. rewrite !app_length. cbn [length violations init_state]. lia.
+Qed.
+
+Lemma once_suppressed_uncounted_refuted :
+  ~ (forall v pre c, suppressed pre c = true -> is_problem c = true -> (1 <= violations (msgs v init_state pre))%N).
+Proof.
+  intros H.
+  specialize (H 0 [{| c_section := []; c_msg := []; c_thresh := 0; c_topthresh := 100; c_once := true |}]
+                {| c_section := []; c_msg := []; c_thresh := -1; c_topthresh := 100; c_once := true |} eq_refl eq_refl).
+  vm_compute in H. apply H. reflexivity.
+Qed.
+
+(* ---- the refinement: per (section, message), counted = plain problems + 1 if there is a once-only problem ---- *)
+Definition once_seen (k : key) (e : list call) : bool := existsb (fun c => has_key k c && c_once c) e.
+Definition count_key (k : key) (cs : list call) : nat := length (filter (has_key k) cs).
+
+Lemma suppressed_other_key : forall e c, c_once c = true -> suppressed e c = once_seen (call_key c) e.
+Proof.
+  intros e c Ho. unfold suppressed, once_seen. rewrite Ho. cbn [andb]. apply existsb_ext'.
+  intros x. unfold same_once, has_key. apply andb_comm.
+Qed.
+
+Lemma once_seen_app : forall k e c, once_seen k (e ++ [c]) = (once_seen k e || (has_key k c && c_once c))%bool.
+Proof. intros. unfold once_seen. rewrite existsb_app. cbn [existsb]. rewrite orb_false_r. reflexivity. Qed.
+
+Lemma has_key_eq : forall k c, has_key k c = true -> call_key c = k.
+Proof. intros k c H. unfold has_key in H. apply key_eqb_eq in H. symmetry. exact H. Qed.
+
+Lemma refinement_gen : forall k cs e,
+  (forall c d, In c cs -> In d cs -> c_once c = true -> c_once d = true ->
+     has_key k c = true -> has_key k d = true -> is_problem c = is_problem d) ->
+  count_key k (filter is_problem (effective e cs)) =
+    (plain_problems k cs + (if negb (once_seen k e) && once_problem k cs then 1 else 0))%nat.
+Proof.
+  intros k. induction cs as [|c cs IH]; intros e Hg.
+  - cbn. destruct (negb (once_seen k e)); reflexivity.
+  - assert (Hg' : forall c0 d, In c0 cs -> In d cs -> c_once c0 = true -> c_once d = true ->
+                   has_key k c0 = true -> has_key k d = true -> is_problem c0 = is_problem d).
+    { intros c0 d Hc Hd. apply Hg; right; assumption. }
+    specialize (IH (e ++ [c]) Hg'). cbn [effective]. rewrite filter_app. unfold count_key in *.
+    rewrite filter_app, app_length, IH. rewrite once_seen_app.
+    unfold plain_problems, once_problem. cbn [filter existsb].
+    destruct (has_key k c) eqn:Hk; cbn [andb orb].
+    + destruct (c_once c) eqn:Ho; cbn [negb andb orb].
+      * rewrite (suppressed_other_key e c Ho). rewrite (has_key_eq k c Hk).
+        destruct (once_seen k e) eqn:Hs; cbn [negb andb orb filter length].
+        -- reflexivity.
+        -- destruct (is_problem c) eqn:Hp; cbn [filter length orb].
+           ++ rewrite Hk. cbn [length]. lia.
+           ++ (* c is a once non-problem with key k: by the guard no once-call with key k in cs is a problem *)
+              assert (Hno : existsb (fun c0 => has_key k c0 && c_once c0 && is_problem c0) cs = false).
+              { apply not_true_is_false. intros Hex. apply existsb_exists in Hex as [d [Hd Hdp]].
+                apply andb_true_iff in Hdp as [Hdp Hpd]. apply andb_true_iff in Hdp as [Hkd Hod].
+                pose proof (Hg c d (or_introl eq_refl) (or_intror Hd) Ho Hod Hk Hkd) as Heq. congruence. }
+              rewrite Hno. cbn. lia.
+      * assert (Hsup : suppressed e c = false) by (unfold suppressed; rewrite Ho; reflexivity).
+        rewrite Hsup. rewrite orb_false_r.
+        destruct (is_problem c) eqn:Hp; cbn [filter length].
+        -- rewrite Hp. cbn [filter]. rewrite Hk. cbn [length]. lia.
+        -- rewrite Hp. cbn [filter length]. lia.
+    + rewrite orb_false_r.
+      destruct (suppressed e c); cbn [filter length]; [lia|].
+      destruct (is_problem c); cbn [filter length]; [rewrite Hk; cbn [length]; lia|lia].
+Qed.
+
+Lemma once_refinement : forall k cs, once_consistent cs ->
+  count_key k (problems cs) = abstract_count k cs.
+Proof.
+  intros k cs Hc. unfold problems, abstract_count. rewrite refinement_gen.
+  - reflexivity.
+  - intros c d Hic Hid Hoc Hod Hkc Hkd. apply (Hc c d Hic Hid Hoc Hod).
+    apply key_eqb_eq. rewrite (has_key_eq k c Hkc), (has_key_eq k d Hkd). reflexivity.
+Qed.
+
+(* ---- topthresh only decides what is printed ---------------------------------------------------------- *)
+Definition with_topthresh (f : call -> Z) (c : call) : call :=
+  {| c_section := c_section c; c_msg := c_msg c; c_thresh := c_thresh c; c_topthresh := f c; c_once := c_once c |}.
+
+Lemma effective_map_top : forall f cs e,
+  effective (map (with_topthresh f) e) (map (with_topthresh f) cs) = map (with_topthresh f) (effective e cs).
+Proof.
+  intros f. induction cs as [|c cs IH]; intros e; [reflexivity|].
+  cbn [map effective]. rewrite map_app. cbn [map].
+  assert (Hs : suppressed (map (with_topthresh f) e) (with_topthresh f c) = suppressed e c).
+  { unfold suppressed. cbn [with_topthresh c_once]. f_equal. rewrite existsb_map'. apply existsb_ext'. intros x. reflexivity. }
+  rewrite Hs. replace (map (with_topthresh f) e ++ [with_topthresh f c]) with (map (with_topthresh f) (e ++ [c]))
+    by (rewrite map_app; reflexivity).
+  rewrite IH. destruct (suppressed e c); reflexivity.
+Qed.
+
+Lemma problems_map_top : forall f l,
+  length (filter is_problem (map (with_topthresh f) l)) = length (filter is_problem l).
+Proof.
+  intros f. induction l as [|c l IH]; [reflexivity|]. cbn [map filter].
+  change (is_problem (with_topthresh f c)) with (is_problem c).
+  destruct (is_problem c); cbn [length]; rewrite IH; reflexivity.
+Qed.
+
+Lemma counting_ignores_topthresh : forall f v cs st, once_msgs st = [] ->
+  violations (msgs v st (map (with_topthresh f) cs)) = violations (msgs v st cs).
+Proof.
+  intros f v cs st H. rewrite !every_problem_counted by exact H. unfold problems.
+  change (@nil call) with (map (with_topthresh f) (@nil call)) at 1. rewrite effective_map_top.
+  rewrite problems_map_top. reflexivity.
+Qed.
